@@ -1,7 +1,9 @@
 import Qentem.Proofs.TmplText
 import Qentem.Proofs.ExprScanSafe
+import Qentem.Proofs.ExprScanTotal
 import Qentem.Proofs.TmplRenderSafe
 import Qentem.Proofs.TmplParseVarRaw
+import Qentem.Proofs.TmplLoopVar
 import Qentem.Generated.Tmpl
 /-!
 # C01 — rendering any template text with any value is memory-safe and terminates
@@ -85,6 +87,13 @@ theorem expr_scan_safe {R : Type} (cfg : ScanCfg R) (c : List Nat) (off endO : N
     (he : endO < c.length) : Safe (parseTop cfg c off endO) (fun _ => True) :=
   parseTop_safe cfg c off endO he
 
+/-- `expr_scan_total`: under the same hypothesis the scanner model returns a list — neither a
+failed read nor an exhausted fuel; so `expr_scan_safe` and the `Safe` statements built on it are
+not vacuous through the model's fuel. -/
+theorem expr_scan_total {R : Type} (cfg : ScanCfg R) (c : List Nat) (off endO : Nat)
+    (he : endO < c.length) : ∃ items, parseTop cfg c off endO = .ok items :=
+  parseTop_total cfg c off endO he
+
 /-- the hypothesis is needed: the public `ParseExpressions("1<", 2)` looks one unit past the
 buffer (out of contract: no terminator).  Observed on the real code as an ASan report. -/
 example : getOperation [49, 60] 2 10 0 = .error (.oobRead 2 2) := by rfl
@@ -143,6 +152,18 @@ theorem render_safe_inline {R : Type} [RealLike R] (cx : RCtx R) (hg : cx.guardI
 /-- non-vacuity: `{math:({var:a}+1)*2}}{var:b}` satisfies the hypothesis -/
 example : OnlyUpTo 4 ("{math:({var:a}+1)*2}}{var:b}".toList.map Char.toNat) :=
   onlyUpTo_of_check 4 _ (by decide)
+
+/-- `checkLoopVariable` compares the variable text with every enclosing loop's value name by
+`IsEqual(var, value, ValueLength)` without looking at the variable's own length.  No read leaves
+the content when (a) every value text of the chain lies inside the content and contains neither
+`}` nor `>` and (b) a `}` or `>` follows the variable text inside the content — both hold at every
+call site (the value text lies in a `<loop …>` tag interior delimited by the Finder and the `>`
+search; every variable text is closed by its tag's `}` / `>`).  Missing for `ParseWF` on
+`<loop>` / `<if>`: (a) as an invariant of `stepLoop` (see notes/design-tmpl.md). -/
+theorem checkLoopVariable_safe (c : List Nat) (varOff : Nat) (chain : List LoopRef)
+    (hch : ChainOk c chain) (hstop : ∃ j x, varOff ≤ j ∧ c[j]? = some x ∧ isStop x) :
+    Safe (checkLoopVariable c varOff chain) (fun _ => True) :=
+  Qentem.Tmpl.checkLoopVariable_safe c varOff chain hch hstop
 
 /-- Open statement: what `parse` returns is well-formed (`parse_wf`).  Evaluated on every generated
 and malformed template of `checks/c01.py` through the driver op `tplwf`. -/
